@@ -2,9 +2,11 @@ package main
 
 import (
 	"fmt"
+	"go/ast"
 	"go/constant"
 	"go/token"
 	"go/types"
+	"sort"
 	"strings"
 
 	"golang.org/x/tools/go/ssa"
@@ -23,6 +25,11 @@ func propC03(w *World, r *Report) {
 	}
 	checkHeaderWrite(w, r, fn)
 	checkReadBack(w, r)
+	RunScanOrder(w, r)
+	// "an independent implementation reports the same glyph names": the format choice and the string area of the post table
+	r.Rule("macroman1 / pascal (shared with C14): post format 1.0 is chosen only for exactly the standard name list; every glyph name in a format 2.0 string area is preceded by a length byte that can represent it")
+	checkMacRoman1(w, r)
+	checkPascal(w, r)
 	// wire sizes
 	p := w.All[modPath+"/header"]
 	for _, x := range []struct {
@@ -536,4 +543,112 @@ func returnsAppendStyle(fn *ssa.Function, par *ssa.Parameter) bool {
 		}
 	}
 	return false
+}
+
+// RunScanOrder: header.Read sorts the byte ranges of the tables and then
+// compares each range with its successor.  The comparison reads two
+// different fields (the end of one, the start of the next), and table ranges
+// may be empty, so the sort has to order by every field the scan reads: with
+// equal starts the empty range must come first, otherwise an empty table that
+// shares its offset with the next table is reported as overlapping.
+func RunScanOrder(w *World, r *Report) {
+	r.Rule("scanorder: where header.Read sorts a slice and then compares neighbouring elements, every field the neighbour comparison reads is also a key of the sort comparator (equal first keys are ordered by the second), so that the outcome of the scan does not depend on how sort.Slice arranges ties")
+	pkg := w.All[modPath+"/header"]
+	if pkg == nil {
+		r.Fatal("package header not loaded")
+		return
+	}
+	fd := findFunc(pkg.Syntax, "Read")
+	if fd == nil {
+		r.Fatal("header.Read not found")
+		return
+	}
+	info := pkg.TypesInfo
+	n := 0
+	ast.Inspect(fd.Body, func(nd ast.Node) bool {
+		call, ok := nd.(*ast.CallExpr)
+		if !ok || len(call.Args) != 2 {
+			return true
+		}
+		sel, ok := call.Fun.(*ast.SelectorExpr)
+		if !ok || !(sel.Sel.Name == "Slice" || sel.Sel.Name == "SliceStable" || sel.Sel.Name == "SortFunc" || sel.Sel.Name == "SortStableFunc") {
+			return true
+		}
+		id, ok := call.Args[0].(*ast.Ident)
+		if !ok {
+			return true
+		}
+		obj := info.ObjectOf(id)
+		fl, ok := call.Args[1].(*ast.FuncLit)
+		if !ok {
+			return true
+		}
+		stable := strings.Contains(sel.Sel.Name, "Stable")
+		// keys of the comparator
+		keys := map[string]bool{}
+		ast.Inspect(fl.Body, func(m ast.Node) bool {
+			if se, ok := m.(*ast.SelectorExpr); ok {
+				keys[se.Sel.Name] = true
+			}
+			return true
+		})
+		// neighbour comparisons after the sort: obj[e1].F op obj[e2].G with different index expressions
+		scan := map[string]bool{}
+		var scanPos token.Pos
+		ast.Inspect(fd.Body, func(m ast.Node) bool {
+			be, ok := m.(*ast.BinaryExpr)
+			if !ok || be.Pos() < call.End() {
+				return true
+			}
+			switch be.Op {
+			case token.LSS, token.GTR, token.LEQ, token.GEQ, token.EQL, token.NEQ:
+			default:
+				return true
+			}
+			elemField := func(e ast.Expr) (string, string, bool) {
+				se, ok := e.(*ast.SelectorExpr)
+				if !ok {
+					return "", "", false
+				}
+				ix, ok := se.X.(*ast.IndexExpr)
+				if !ok {
+					return "", "", false
+				}
+				if xid, ok := ix.X.(*ast.Ident); !ok || info.ObjectOf(xid) != obj {
+					return "", "", false
+				}
+				return types.ExprString(ix.Index), se.Sel.Name, true
+			}
+			i1, f1, ok1 := elemField(be.X)
+			i2, f2, ok2 := elemField(be.Y)
+			if ok1 && ok2 && i1 != i2 {
+				scan[f1], scan[f2] = true, true
+				scanPos = be.Pos()
+			}
+			return true
+		})
+		if len(scan) == 0 {
+			return true
+		}
+		n++
+		key := r.MkKey("scanorder", "header.Read", "sort of "+id.Name)
+		var missing []string
+		for f := range scan {
+			if !keys[f] {
+				missing = append(missing, f)
+			}
+		}
+		sort.Strings(missing)
+		switch {
+		case len(missing) == 0:
+			r.OK("scanorder", key, w.Pos(call.Pos()), "the comparator orders by every field the neighbour comparison reads")
+		case stable:
+			r.Fail("scanorder", key, w.Pos(call.Pos()), fmt.Sprintf("the neighbour comparison at %s reads %s, which the comparator does not order by: elements with equal keys stay in directory order, which is not the order of their %s", w.Pos(scanPos), strings.Join(missing, ","), strings.Join(missing, ",")), nil)
+		default:
+			r.Fail("scanorder", key, w.Pos(call.Pos()), fmt.Sprintf("the neighbour comparison at %s reads %s, which the comparator does not order by: for elements with equal keys (an empty table and the table that follows it at the same offset) sort.Slice may put the longer one first, and the file is rejected as overlapping", w.Pos(scanPos), strings.Join(missing, ",")), nil)
+		}
+		return true
+	})
+	r.Floor("scanorder", 1)
+	_ = n
 }
